@@ -153,7 +153,16 @@ fn mk(cfg: &RunCfg) -> Box<dyn Oracle> {
     Box::new(C18 { guarded: cfg.guards.contains("guarded"), ..Default::default() })
 }
 
+/// now and then an author sends one of its earlier messages once more (same rumor, new wrapper)
+fn resend_hook(gn: &mut Gen, w: &mut World) -> Option<Step> {
+    let own: Vec<(usize, EvRef)> = w.ledger.iter().filter(|l| w.is_active_member(l.author, l.g) && !w.has_pending_commit(l.author, l.g)).map(|l| (l.author, l.origin)).collect();
+    let (node, msg) = *gn.rng().pick(&own)?;
+    Some(gn.mk(w, node, 0, Op::ResendMsg { msg }))
+}
+
 fn msg_ties(g: &mut Gen) {
+    g.hostile_hook = Some(resend_hook);
+    g.cfg.weights.hostile = g.cfg.weights.hostile.max(2);
     g.cfg.weights.msg += 6;
     g.cfg.weights.dup += 1;
     // removals and re-invitations: a client that still holds messages of the group is invited again
